@@ -173,7 +173,16 @@ KIND = {
 
 def apply_op(ct, net, tree, cop, arrays, side):
     """perform one concrete operation; returns (tree, kind, mayslice, extra)"""
+    if cop.get("progbar"):
+        # progress bars are an option of several operations; they write to stderr and must change nothing else
+        with contextlib.redirect_stderr(io.StringIO()):
+            return _apply_op(ct, net, tree, cop, arrays, side)
+    return _apply_op(ct, net, tree, cop, arrays, side)
+
+
+def _apply_op(ct, net, tree, cop, arrays, side):
     name = cop["op"]
+    pb = {"progbar": True} if cop.get("progbar") else {}
     kind = KIND[name]
     mayslice = False
     extra = {}
@@ -192,7 +201,7 @@ def apply_op(ct, net, tree, cop, arrays, side):
         tree = tree.subtree_reconfigure(
             subtree_size=cop["subtree_size"], subtree_search=cop["subtree_search"], select=cop["select"],
             weight_what=cop["weight_what"], maxiter=cop["maxiter"], seed=cop["seed"], minimize=cop["minimize"],
-            inplace=cop["inplace"])
+            inplace=cop["inplace"], **pb)
     elif name == "subtree_reconfigure_forest":
         tree = tree.subtree_reconfigure_forest(
             num_trees=cop["num_trees"], num_restarts=cop["num_restarts"], subtree_maxiter=cop["subtree_maxiter"],
@@ -200,7 +209,7 @@ def apply_op(ct, net, tree, cop, arrays, side):
     elif name == "slice_and_reconfigure":
         tgt = max(1, tree.max_size() // cop["div"])
         tree = tree.slice_and_reconfigure(tgt, reconf_opts={"subtree_size": 3, "maxiter": 2}, max_repeats=4,
-                                          inplace=True)
+                                          inplace=True, **pb)
     elif name == "slice_and_reconfigure_forest":
         tgt = max(1, tree.max_size() // cop["div"])
         tree = tree.slice_and_reconfigure_forest(tgt, num_trees=2, max_repeats=4, parallel=False,
@@ -233,7 +242,7 @@ def apply_op(ct, net, tree, cop, arrays, side):
                           max_repeats=4, inplace=cop["inplace"], **kw)
     elif name == "contract":
         key = CONTRACT_KEYS[cop["key"]]
-        extra["value"] = tree.contract(arrays, **key)
+        extra["value"] = tree.contract(arrays, **key, **pb)
     elif name == "contract_stats":
         extra["stats"] = dict(tree.contract_stats(force=cop["force"]))
     elif name == "get_path":
@@ -379,6 +388,8 @@ def run_history(ct, net, ssa0, abstract_ops, seed, arrays=None):
     for k, aop in enumerate(abstract_ops, 1):
         state = {"sliced": {net.ix_of(i) for i in tree.sliced_inds}}
         cop = concretise(rng, net, aop, state)
+        if cop["op"] in ("subtree_reconfigure", "slice_and_reconfigure", "contract") and rng.random() < 0.15:
+            cop["progbar"] = True
         res["cops"].append(cop)
         nside = len(side)
         try:
